@@ -4,7 +4,7 @@
    model: SM4/SM4Model.v (follows /repo/sm4/sm4.go function by function over the tables the translator
    regenerates from the source into Gen/SM4Tables.v). *)
 From Coq Require Import List NArith Arith Bool Lia.
-From GmsmVerif Require Import Lib.Outcome Gen.SM4Tables SM4.SM4Spec SM4.SM4Model SM4.SM4Proofs.
+From GmsmVerif Require Import Lib.Outcome Gen.SM4Tables Gen.SM4Consts SM4.SM4Spec SM4.SM4Model SM4.SM4Proofs SM4.SM4Consts.
 Import ListNotations.
 Open Scope N_scope.
 
@@ -158,6 +158,32 @@ Theorem C05_newcipher_rejects : forall key,
   (length key = 16%nat -> exists c, NewCipher key = Ok c).
 Proof. intros key. split; [apply NewCipher_err_iff|apply NewCipher_total]. Qed.
 Print Assumptions C05_newcipher_rejects.
+
+(* ---- 8. what a caller of sm4.NewCipher gets, as a pair of total functions ------------------------------------------ *)
+Theorem C05_go_cipher_is_sm4 : forall key blk,
+  length key = 16%nat -> bytes_ok key = true -> length blk = 16%nat -> bytes_ok blk = true ->
+  go_encrypt key blk = sm4_encrypt_block key blk /\ go_decrypt key blk = sm4_decrypt_block key blk.
+Proof. intros key blk H1 H2 H3 H4. apply go_cipher_is_spec; split; assumption. Qed.
+Print Assumptions C05_go_cipher_is_sm4.
+
+(* ---- 9. the constants the model hard-codes are the constants of the source (Gen/SM4Consts.v) ------------------------ *)
+(* rotation amounts of rl / l0, shifts and masks of p, the byte order of permuteInitialBlock, masks and shifts of the
+   T-table lookups, 8 iterations, 32 round keys, BlockSize - each model function is definitionally the function with
+   the source's literal at the stated position; and the complete literal sequences of the block-cipher functions *)
+Theorem C05_source_constants :
+  (forall x i, rl x i = N.lor (u32 (N.shiftl x (i mod lit gen_lits_rl 0))) (N.shiftr x (lit gen_lits_rl 1 - i mod lit gen_lits_rl 2))) /\
+  (forall b, l0 b = N.lxor (N.lxor b (rl b (lit gen_lits_l0 0))) (rl b (lit gen_lits_l0 1))) /\
+  gen_lits_l0 = [13; 23] /\ gen_lits_rl = [32; 32; 32] /\
+  gen_lits_p = [24; 24; 16; 255; 16; 8; 255; 8; 255] /\
+  gen_lits_permuteInitialBlock = [0; 4; 4; 24; 4; 1; 16; 4; 2; 8; 4; 3] /\
+  (forall sk b, enc_loop 8 0 sk b = enc_loop (nlit gen_lits_cryptBlock 63) 0 sk b /\
+                dec_loop 8 0 sk b = dec_loop (nlit gen_lits_cryptBlock 2) 0 sk b) /\
+  length gen_ck = nlit gen_lits_generateSubKeys 0 /\ gen_BlockSize = lit gen_lits_NewCipher 0.
+Proof.
+  split; [exact rl_at_source|]. split; [exact l0_at_source|].
+  repeat split; try reflexivity; apply (cryptBlock_loops_at_source sk b).
+Qed.
+Print Assumptions C05_source_constants.
 
 (* ---- non-vacuity: the hypotheses are satisfiable, instances evaluated ---------------------------------- *)
 Example C05_example_standard_vector :
